@@ -36,6 +36,13 @@ fn cost(off: usize, len: usize) -> usize {
     }
 }
 
+thread_local! {
+    /// the script generated so far: if the library under test fails during generation (a reopen
+    /// that errors or panics), generation stops and the partial script is used - the normal run
+    /// then observes the failure as data
+    static PARTIAL: std::cell::RefCell<Option<Script>> = const { std::cell::RefCell::new(None) };
+}
+
 struct Live {
     script: Script,
     log: Option<MultiRecordLog>,
@@ -78,6 +85,7 @@ impl Live {
             let _ = apply_step(&self.script, self.log.as_mut().unwrap(), &step);
         }
         self.script.steps.push(step);
+        PARTIAL.with(|cell| *cell.borrow_mut() = Some(self.script.clone()));
     }
 
     fn payload(&mut self, len: usize) -> Payload {
@@ -607,17 +615,30 @@ pub fn is_aimed(profile: &str) -> bool {
 
 pub fn generate(profile: &str, seed: u64, policy: &str) -> Script {
     // generation runs the library; recording must not pick up its events
-    let script = match profile {
-        "aim-gc" => aim_gc(seed, policy),
-        "aim-roll" => aim_roll(seed, policy),
-        "aim-batch" => aim_batch(seed, policy),
-        "aim-block" => aim_block(seed, policy),
-        "aim-pin" => aim_pin(seed, policy),
-        "aim-noop" => aim_noop(seed, policy),
-        "aim-recreate" => aim_recreate(seed, policy),
-        "aim-seam" => aim_seam(seed, policy),
+    PARTIAL.with(|cell| *cell.borrow_mut() = None);
+    let profile_owned = profile.to_string();
+    let policy_owned = policy.to_string();
+    let result = std::panic::catch_unwind(move || match profile_owned.as_str() {
+        "aim-gc" => aim_gc(seed, &policy_owned),
+        "aim-roll" => aim_roll(seed, &policy_owned),
+        "aim-batch" => aim_batch(seed, &policy_owned),
+        "aim-block" => aim_block(seed, &policy_owned),
+        "aim-pin" => aim_pin(seed, &policy_owned),
+        "aim-noop" => aim_noop(seed, &policy_owned),
+        "aim-recreate" => aim_recreate(seed, &policy_owned),
+        "aim-seam" => aim_seam(seed, &policy_owned),
         other => panic!("unknown aimed profile {other}"),
-    };
+    });
     mrecordlog::verif::take_events();
-    script
+    match result {
+        Ok(script) => script,
+        Err(_) => PARTIAL.with(|cell| cell.borrow_mut().take()).unwrap_or_else(|| Script {
+            name: format!("{profile}-{seed}"),
+            policy: policy.to_string(),
+            queues: vec!["q".to_string()],
+            anchors: anchors(),
+            steps: Vec::new(),
+            expect: None,
+        }),
+    }
 }
